@@ -86,9 +86,9 @@ Print Assumptions C10_checker_silent_on_model.
    OCancel) it is given by the history of the sender itself: a cancellation names, by position, one of the
    transactions this sender's Send calls got accepted so far, and the node answers with that transaction
    (its Nonce() is the nonce it was submitted with; fee fields, pending flag, tip suggestion, signing and
-   submission answers stay free).  Frame fact read off evmclient.go and not covered by a correspondence run
-   of its own: CancelTx holds the client mutex, never assigns c.nonce and never touches the monitor's
-   confirmed nonce.  Non-vacuity: Compose_chain.ex_chain. *)
+   submission answers stay free).  Frame fact: CancelTx never assigns c.nonce and never stores the monitor's
+   confirmed nonce -- regenerated from evmclient.go on every run (C10_cancel_frame below); the CancelTx step
+   of the combined machine consults it.  Non-vacuity: Compose_chain.ex_chain. *)
 From MevVerif Require model.EvmSend proofs.Compose_chain.
 
 (* C10 o C08.  Every replacement that reaches the node carries the nonce of a transaction that an earlier
@@ -99,3 +99,19 @@ Theorem C10_cancel_reuses_submitted_nonce : forall cl ops pre t b post,
   x_chain t = chain cl /\ x_to t = owner cl /\ x_value t = 0 /\ x_data t = [] /\ x_gas t = 21000.
 Proof. exact Compose_chain.cancel_reuses_submitted_nonce. Qed.
 Print Assumptions C10_cancel_reuses_submitted_nonce.
+
+(* The frame of CancelTx as extracted from evmclient.go on this run: no assignment / ++ / -- of c.nonce
+   inside CancelTx, no call of lastConfirmedNonce.Store; hence the flag the combined machine's CancelTx step
+   consults holds.  (Positive controls of the same extractor kind: Send writes c.nonce once, getNonce twice,
+   as model/EvmSend.v has it.)  A CancelTx that starts writing c.nonce makes this fail to compile, and with
+   it C08_cancel_transparent, C08_monotone_across_cancels and C08_no_skip_across_cancels. *)
+From MevVerif Require gen.Generated.
+Theorem C10_cancel_frame :
+  Generated.c10_cancel_writes_nonce = 0%N /\ Generated.c10_cancel_touches_confirmed = false /\
+  Compose_chain.cancel_frame_ok = true /\
+  Generated.c10_send_writes_nonce = 1%N /\ Generated.c10_getnonce_writes_nonce = 2%N.
+Proof.
+  exact (conj (proj1 Compose_chain.cancel_frame_now) (conj (proj2 Compose_chain.cancel_frame_now)
+        (conj Compose_chain.cancel_frame_ok_now Compose_chain.sender_writes_now))).
+Qed.
+Print Assumptions C10_cancel_frame.
